@@ -53,7 +53,7 @@ class Res:
         self.d = {"case": case_id, "vcs": 0, "discharged": 0, "paths": 0, "violations": [], "inconclusive": [],
                   "samples": [], "distinct": [], "fns": set(), "models": set(), "solver_time": 0.0, "stats": {}}
 
-    def vc(self, ctx, name, constraints, goal, inputs, info=None, timeout_ms=None, portfolio=None):
+    def vc(self, ctx, name, constraints, goal, inputs, info=None, timeout_ms=None, portfolio=None, prefer=None):
         """discharge one VC; on sat record a violation with concrete inputs"""
         d = self.d
         d["vcs"] += 1
@@ -74,6 +74,13 @@ class Res:
             if not isinstance(goal, bool):
                 self.cross(ctx, name, constraints, goal)
         elif r.status == "sat":
+            if prefer is not None:
+                # counterexample selection only: first ask for a model inside the region that the public API can reach / that
+                # replays (e.g. outputs a callee really produces); any model is a counterexample of the same VC
+                r2 = check_vc(list(constraints) + list(prefer), goal, timeout_ms or ctx.timeout_ms, name)
+                d["solver_time"] += r2.time
+                if r2.status == "sat":
+                    r = r2
             vals = {}
             for k, t in inputs.items():
                 try:
